@@ -1,6 +1,7 @@
 (** Extraction of the C07 model (ExtrOcamlBasic only). *)
 From Coq Require Extraction.
 From Coq Require ExtrOcamlBasic.
-From RimeV Require Import Lookup.Defs Lookup.Model.
+From RimeV Require Import Lookup.Defs Lookup.Model Lookup.Poet.
 Extraction "c07_model.ml" script_query table_query script_wgraph table_wgraph wg_path_ok wg_has_path
-           script_translation lookup query.
+           script_translation lookup query
+           make_sentence robust chain_weight compare_weight left_associate_compare poet_script poet_table.
